@@ -3,7 +3,7 @@ import itertools
 
 from hypothesis import strategies as st
 
-from vf import build, oracle
+from vf import build, oracle, strategies as S
 from vf.core import Part, Violation, call
 from vf.props import common
 
@@ -22,6 +22,22 @@ ASSUMPTIONS = ["for column boxes above the guard the <= direction is a search at
 
 
 @st.composite
+def negation_case(draw, tier):
+    spec = draw(S.negation_focus_spec(int_leaves=False, depth=2 if tier == "quick" else 3))
+    return {"model": spec, "points": None, "obj": []}
+
+
+@st.composite
+def boolean_case(draw, tier):
+    """boolean leaves, positive connectives and negating connectives only: every such model is solver-safe as written"""
+    c = draw(common.model_case(guard=600 if tier == "quick" else 2000, depth=3 if tier == "quick" else 4, profile="small",
+                               kinds=("All", "Any", "AtLeast", "AtLeast", "Imply", "Not", "XNor"), max_bool=5, max_int=0,
+                               positive_only=True, min_leaves=2))
+    c["obj"] = []
+    return c
+
+
+@st.composite
 def case_strategy(draw, tier, profile):
     c = draw(common.model_case(guard=600 if tier == "quick" else 2000, n_points=(16, 32),
                                depth=3 if tier == "quick" else 4, profile=profile,
@@ -31,6 +47,30 @@ def case_strategy(draw, tier, profile):
                                max_bool=4, max_int=2 if profile == "small" else 3))
     c["obj"] = [list(x) for x in draw(st.lists(st.lists(st.integers(-5, 5), min_size=14, max_size=14), min_size=4, max_size=10))]
     return c
+
+
+def written_solver_safe(spec):
+    """The model as WRITTEN is in solver-safe form: boolean leaves only and no negatively signed connective (AtMost,
+    AtLeast with negative sign, Xor/ExactlyOne which contain an AtMost) has a compound child. Negating connectives
+    (Not, Imply, XNor) are allowed: the statement says negation pushes inwards to re-establish the form."""
+    shared = spec.get("shared", []) if "root" in spec else []
+
+    def compound(c):
+        return c["k"] != "leaf"
+    for n in oracle.spec_nodes(spec):
+        k = n["k"]
+        if k == "leaf":
+            if tuple(n["b"]) != (0, 1):
+                return False
+            continue
+        if k == "ref":
+            continue
+        if n.get("fix") is not None:
+            return False
+        neg = k in ("AtMost", "Xor", "ExactlyOne") or (k == "AtLeast" and (n.get("s") == -1 or (n.get("s") is None and n["v"] <= 0)))
+        if neg and any(compound(c) for c in n["c"]):
+            return False
+    return True
 
 
 def check(case, ev):
@@ -71,7 +111,10 @@ def check(case, ev):
             raise Violation(f"valid configuration lost: {env} satisfies the model but its completion {full} violates the polyhedron")
     ev.count("satisfying_assignments", n_sat)
     # ---- direction <= ------------------------------------------------------------------------------
-    safe = oracle.solver_safe(m)
+    built_safe = oracle.solver_safe(m)
+    safe = built_safe or written_solver_safe(spec)
+    if safe and not built_safe:
+        cl.append("written_safe_but_built_unsafe")
     nontrivial = False
     if not safe:
         ev.count("not_solver_safe_skipped_converse")
@@ -112,7 +155,8 @@ def check(case, ev):
             env = {i: full[i] for i in lv}
             memo = {}
             if oracle.obj_value(m, env, memo=memo) != 1:
-                raise Violation(f"solver-safe model: feasible polyhedron point {full} has a leaf part {env} that does not satisfy the model")
+                raise Violation(f"solver-safe model ({'as built' if built_safe else 'as written; negation did not re-establish the form'}): "
+                                f"feasible polyhedron point {full} has a leaf part {env} that does not satisfy the model")
             if not slack and aux_idx:
                 if any(full[cid] != oracle.obj_value(node, env, memo=memo) for cid, node in comps.items() if cid in full):
                     slack = True
@@ -132,4 +176,6 @@ def parts(tier):
     return [
         Part("small", strategy=lambda t: _with_tier(case_strategy(t, "small"), t), check=check, quick=(6, 100), thorough=(12, 1500)),
         Part("large", strategy=lambda t: _with_tier(case_strategy(t, "large"), t), check=check, quick=(2, 40), thorough=(4, 500)),
+        Part("negated_thresholds", strategy=lambda t: _with_tier(negation_case(t), t), check=check, quick=(2, 150), thorough=(4, 2500)),
+        Part("boolean_negations", strategy=lambda t: _with_tier(boolean_case(t), t), check=check, quick=(4, 120), thorough=(8, 2000)),
     ]
